@@ -1,6 +1,8 @@
 CONSTANTS
-  MaxSeq = 3
-  MaxOps = 6
+  MaxSeq = 2
+  MaxTasks = 4
+  MaxEpoch = 2
+  MaxOps = 7
   Dev = {"remote-opens-any"}
 INIT Init
 NEXT Next
